@@ -38,6 +38,7 @@ func main() {
 
 type hist struct {
 	ft, wbuf, laddrOK bool
+	stalled           []chan struct{} // writers parked in a stalled connection's Write
 	rt                int
 	mux               *ice.TCPMuxDefault
 	lis               *fakeListener
@@ -473,6 +474,41 @@ func (h *hist) exec(c *Ctx, t []string) (obs []string) {
 			return []string{"err"}
 		}
 		return []string{"n", strconv.Itoa(n)}
+	case "wrstall": // wrstall h cid xRADDR : the client of cid stops reading; a WriteTo towards it parks in the socket write
+		pc, ok := h.handles[atoi(t[1])]
+		fc := h.conns[atoi(t[2])]
+		if !ok || fc == nil || h.wbuf {
+			return []string{"skip"}
+		}
+		ap, err := netip.ParseAddrPort(Unhex(t[3]))
+		if err != nil {
+			panic(err)
+		}
+		fc.mu.Lock()
+		fc.stall = true
+		fc.mu.Unlock()
+		done := make(chan struct{})
+		h.stalled = append(h.stalled, done)
+		go func() {
+			defer close(done)
+			defer func() { _ = recover() }()
+			_, _ = pc.WriteTo([]byte("stalled"), net.TCPAddrFromAddrPort(ap))
+		}()
+		for i := 0; i < 4000; i++ {
+			fc.mu.Lock()
+			parked := fc.parkedW > 0
+			fc.mu.Unlock()
+			select {
+			case <-done:
+				parked = true
+			default:
+			}
+			if parked {
+				break
+			}
+			time.Sleep(50 * time.Microsecond)
+		}
+		return []string{"skip"}
 	case "rd":
 		r := h.read(atoi(t[1]))
 		h.wait()
@@ -598,7 +634,15 @@ func (h *hist) cleanup() string {
 			go func() { _ = pc.Close() }()
 		}
 		cs := takeCensus(h.afterID)
-		if cs.acc+cs.hc+cs.w+cs.r+cs.wp+cs.tm+cs.other == 0 {
+		stuck := 0
+		for _, d := range h.stalled {
+			select {
+			case <-d:
+			default:
+				stuck++
+			}
+		}
+		if cs.acc+cs.hc+cs.w+cs.r+cs.wp+cs.tm+cs.other == 0 && stuck == 0 {
 			return "clean"
 		}
 		if time.Now().After(deadline) {
